@@ -379,6 +379,16 @@ class StmtMixin:
 
     # ------------------------------------------------------------------
     # assignment
+    def heapify(self, v, T, st):
+        """A function-local dict literal stored where the schema declares a heap dict: allocate the heap dict with the same entries."""
+        if isinstance(v, VLoc) and isinstance(T, ty.Map) and st.loc(v).kind == "dict":
+            m = st.new_map(T)
+            for k, x in st.loc(v).data.items():
+                kv = VStr(k) if isinstance(k, str) else (VInt(k) if isinstance(k, int) else k)
+                st.map_set(m, kv.t, x)
+            return m
+        return v
+
     def store_name(self, name, v, st):
         f = st.frame
         if name in f.globals_decl:
@@ -386,7 +396,7 @@ class StmtMixin:
             if key not in self.schema.globs:
                 raise EngineError(f"assignment to undeclared module global {f.module}.{name}")
             self.check_global_write(f.module, name, st)
-            st.globs[key] = v
+            st.globs[key] = self.heapify(v, self.schema.globs[key].T, st)
             return
         if name in f.nonlocal_decl:
             fr = st.frames.get(f.parent) if f.parent else None
